@@ -20,8 +20,8 @@ func ruleReadonly(c *Ctx, names []string, tier string) *RuleResult {
 	for _, n := range names {
 		noWrites(c, r, c.Fn(n), []int{0}, "the shared receiver")
 	}
-	if tier == "thorough" {
-		// widen: every exported function taking a graph.Graph (not EditableGraph) must not write it
+	{
+		// widen (both tiers): every exported function taking a graph.Graph (not EditableGraph) must not write it
 		gp := c.ByPath[c.Mod+"/graph"]
 		if gp != nil {
 			gi, _ := gp.Types.Scope().Lookup("Graph").Type().Underlying().(*types.Interface)
